@@ -39,7 +39,7 @@ CLAIMED = {
  "C16": dict(cat="other", ref="DESIGN.md 4/C16",
    text="saturation() proved for any (nc, ns), scalar or per-channel range, proportion, slew limit, rate and taper width: which mask is averaged over which axis, OR-combination with '>' thresholds, trailing zero of the slew term, "
         "mute in [0,1], 0 on flagged samples (odd widths), 1 beyond the half-width, mute computed from the flags only, input untouched.",
-   note="np.mean of a boolean column = fraction of channels (A-NP-SPEC), convolve('same') with a non negative kernel and cosine(M) centre tap (A-SCIPY) are assumed contracts exercised natively by the bounded stand-in; A-REAL. Known finding F-C16-1 (even widths).",
+   note="np.mean of a boolean column = fraction of channels (A-NP-SPEC), convolve('same') with a non negative kernel and cosine(M) centre tap (A-SCIPY) are assumed contracts exercised natively by the bounded stand-in; A-REAL. F-C16-1 (even widths) was repaired.",
    tech="AST->z3 VC generation with reduction/convolution specification axioms (deductive) + bounded native stand-in"),
  "C03": dict(cat="other", ref="DESIGN.md 4/C03",
    text="One symbolic iteration of the real window loop of _process_NP24 (read -> _ind2save -> _split2shanks): the block appended to each shank's AP file is exactly the original int16 samples [a_j,b_j) of that shank's columns + sync, "
